@@ -392,7 +392,11 @@ func runC19(c *eng.Ctx) {
 					if h, _ := eng.Search(eng.Loc{B: e.B.Succs[e.I]}, eng.Is(r), eng.SearchOpt{Cut: goOn}); h == nil {
 						continue
 					}
-					for _, v := range eng.ResolveFromCut(r.(*ssa.Return).Results[0], iff, goOn) {
+					vals := eng.ResolveFromCut(r.(*ssa.Return).Results[0], iff, goOn)
+					if len(vals) == 0 {
+						okCur = false
+					}
+					for _, v := range vals {
 						if !eng.MentionsCall(v, "filer.Entry).Name", "util.FullPath).Name") {
 							okCur = false
 						}
